@@ -1,0 +1,24 @@
+//go:build verif
+
+package uci
+
+import (
+	. "github.com/paulsonkoly/chess-3/chess"
+)
+
+// VerifLimits exposes the time-control helpers: whether the request is timed,
+// the soft limit and the hard limit in milliseconds for the side to move.
+func VerifLimits(wtime, btime, winc, binc, mtime int64, stm Color) (timed bool, soft, hard int64) {
+	tc := timeControl{wtime: wtime, btime: btime, winc: winc, binc: binc, mtime: mtime}
+	return tc.timedMode(stm), tc.softLimit(stm), tc.hardLimit(stm)
+}
+
+// VerifPoint, when set, is called at the scheduling hook points of the driver
+// with the name of the point. It only gives a harness control over timing.
+var VerifPoint func(name string)
+
+func verifPoint(name string) {
+	if f := VerifPoint; f != nil {
+		f(name)
+	}
+}
